@@ -196,6 +196,26 @@ def gen_scenario(root, profile=None):
     numeric = kind == "pbt" and r.chance(0.7)
     space = gen_space(r, finite=(kind == "fifo_grid"), numeric=numeric, tiny=tiny,
                       max_dims=2 if tiny else 4)
+    if p["world"] == "sim":
+        # finite, fully tabulated space (<= 40 rows) of exactly matchable values
+        space = []
+        rows = 1
+        for i in range(r.randint(2, 3)):  # (a one-column BlackboxTabular cannot be queried with this pandas: see DESIGN)
+            if r.chance(0.5):
+                n = r.randint(2, 5)
+                dom = ["choice", r.choice([["a", "b", "c", "d", "e"], [1, 2, 3, 5, 8]])[:n]]
+            else:
+                lo = r.randint(0, 3)
+                n = r.randint(2, 6)
+                dom = ["randint", lo, lo + n - 1]
+            if rows * n > 40 and len(space) >= 2:
+                break
+            rows *= n
+            space.append(["x%d" % i, dom])
+        if len(space) < 2:
+            space = [["x0", ["randint", 0, 5]], ["x1", ["choice", ["a", "b", "c"]]]]
+        if r.chance(0.3):
+            space.append(["c0", ["const", r.choice([7, "fixed", 0.5])]])
     use_maxres = (kind.startswith("hb_") or kind.startswith("sync") or kind == "dehb") and not r.chance(p["p_no_maxres"])
     if kind in ("sync_hb", "sync_hb_custom", "sync_hb_bo", "dehb", "hb_dyhpo") and not use_maxres:
         use_maxres = r.chance(0.7)
@@ -391,6 +411,24 @@ def gen_scenario(root, profile=None):
     if r.chance(p["p_noreport"]):
         script["noreport_exit0"] = True
         script["noreport_trials"] = [r.randint(0, 5)]
+    if p["world"] == "sim":
+        mean = script["pace"]["mean"]
+        dl = lambda: r.choice([0.0, 0.05, 0.05, 0.5, 3.0]) * mean
+        d_res = dl()
+        scen["sim"] = {
+            "n_seeds": r.randint(1, 3), "fixed_seed": None, "support_checkpointing": script["checkpointing"],
+            "elapsed_kind": r.choice(["monotone", "monotone", "noisy", "nonmonotone"]),
+            "tuner_sleep_time": tuner["sleep_time"],
+            "delays": {"on_trial_result": d_res, "complete_after_final_report": d_res + dl(), "complete_after_stop": dl(),
+                       "start": dl(), "stop": dl()},
+        }
+        if r.chance(0.5):
+            scen["sim"]["fixed_seed"] = r.randint(0, scen["sim"]["n_seeds"] - 1)
+        scen["backend"] = {"delete_checkpoints": False, "async_stop": 0.0}
+        scen["faults"] = [f for f in faults if f["kind"] == "crash"]
+        sched.pop("early_ckpt_removal", None)
+        script.pop("noreport_exit0", None)
+        script["cost"] = False
     if r.chance(p["p_callback_raise"]):
         scen["callback_raise"] = {"hook": r.choice(["on_trial_result", "on_loop_end", "on_start_trial", "sleep"]),
                                   "n": r.randint(1, 25), "exc": r.choice(["RuntimeError", "KeyboardInterrupt"])}
@@ -475,7 +513,7 @@ def build_scheduler(scen):
         hb_type = HB_TYPES[kind] or s.get("hb_type")
         kw["type"] = hb_type
         if kind == "hb_cost_promotion":
-            kw["cost_attr"] = COST_ATTR
+            kw["cost_attr"] = "elapsed_time" if scen["world"] == "sim" else COST_ATTR
         rsk = {}
         if "num_threshold_candidates" in s:
             rsk["num_threshold_candidates"] = s["num_threshold_candidates"]
